@@ -42,6 +42,9 @@ type Config struct {
 	// close causes (C11): applied when both are complete (or at chooser's discretion in arbitrary mode)
 	Causes []Cause `json:"causes"`
 	Seed   uint64  `json:"seed"`
+	// UserConcurrent (C03 runs only): the user's action runs on its own goroutine at the same instant as the next
+	// delivery, in parallel with it (an approval arriving while the pending state is being decided or entered)
+	UserConcurrent bool `json:"user_concurrent,omitempty"`
 	// E2E (C07 end to end): application payloads are generated JSON documents instead of the fixed
 	// numbered payload; what the peer's reader gets is compared semantically with what was sent
 	E2E bool `json:"e2e"`
@@ -294,6 +297,19 @@ func run(t *testing.T, cfg *Config, wd *vc.Watchdog) (res result) {
 				continue
 			}
 			if !userDone && (cfg.UserAfter == 0 && now() >= cfg.UserAt || cfg.UserAfter > 0 && steps > cfg.UserAfter) {
+				if cfg.UserConcurrent && len(en) > 0 {
+					// in parallel with the next delivery
+					choose(cfg.User + "||")
+					var uw sync.WaitGroup
+					uw.Add(1)
+					userDone = true
+					go func() { defer uw.Done(); doUser() }()
+					k := r.Intn(len(en))
+					choose(en[k].name)
+					en[k].f()
+					uw.Wait()
+					continue
+				}
 				choose(cfg.User)
 				doUser()
 				continue
